@@ -128,9 +128,13 @@ def gen_steps(rnd, ai, n):
         if c < 0.2:
             ids = rnd.sample(range(nacs), rnd.randint(1, nacs))
             steps.append(["ac_status", [abstract_ac(rnd, a) for a in ids]])
+            if rnd.random() < 0.15:
+                steps[-1].append({"to": rnd.choice([0xB1, 0xB2, 0x00])})   # to another client
         elif c < 0.4 and nz:
             ids = rnd.sample(range(nz), rnd.randint(1, nz))
             steps.append(["zone_status", [abstract_zone(rnd, z, ai["sensors"][z]) for z in ids]])
+            if rnd.random() < 0.15:
+                steps[-1].append({"to": rnd.choice([0xB1, 0xB2, 0x00])})
         elif c < 0.47:
             steps.append(["timers", [[rnd.random() < 0.5, rnd.randint(0, 23), rnd.randint(0, 59),
                                       rnd.random() < 0.5, rnd.randint(0, 23), rnd.randint(0, 59)]
@@ -189,16 +193,20 @@ def step_frame(gen, con, step):
                 con.inst["errors"][r["ac"]] = "E-common"
             else:
                 con.inst["errors"].pop(r["ac"], None)
+        to = step[2]["to"] if len(step) > 2 else R.ADDR_CLIENT
         if gen == 4:
-            return con.f_std(0x2D, b"".join(R.b4_ac_status_record(r) for r in recs))
+            return con.f_std(0x2D, b"".join(R.b4_ac_status_record(r) for r in recs), to=to)
         st = con.knobs.stride_ac
-        return con.f_std(0xC0, R.c0(0x23, st, [R.b5_ac_status_record(r, st) for r in recs]))
+        return con.f_std(0xC0, R.c0(0x23, st, [R.b5_ac_status_record(r, st) for r in recs]),
+                         to=to)
     if k == "zone_status":
         recs = [zone_record(gen, z) for z in step[1]]
+        to = step[2]["to"] if len(step) > 2 else R.ADDR_CLIENT
         if gen == 4:
-            return con.f_std(0x2B, b"".join(R.b4_group_status_record(r) for r in recs))
+            return con.f_std(0x2B, b"".join(R.b4_group_status_record(r) for r in recs), to=to)
         st = con.knobs.stride_zone
-        return con.f_std(0xC0, R.c0(0x21, st, [R.b5_zone_status_record(r, st) for r in recs]))
+        return con.f_std(0xC0, R.c0(0x21, st, [R.b5_zone_status_record(r, st) for r in recs]),
+                         to=to)
     if k == "timers":
         tm = {}
         for ac, t in enumerate(step[1]):
